@@ -88,12 +88,14 @@ func (p *MACPayload) UnmarshalBinary(uplink bool, data []byte) error {
 	}
 
 	// decode the optional FPort
+	p.FPort = nil
 	if dataLen > 7+int(p.FHDR.FCtrl.fOptsLen) {
 		fPort := uint8(data[7+int(p.FHDR.FCtrl.fOptsLen)])
 		p.FPort = &fPort
 	}
 
 	// decode the rest of the payload (if present)
+	p.FRMPayload = nil
 	if dataLen > 7+int(p.FHDR.FCtrl.fOptsLen)+1 {
 		if p.FPort != nil && *p.FPort == 0 && p.FHDR.FCtrl.fOptsLen > 0 {
 			return errors.New("lorawan: FPort must not be 0 when FOpts are set")
